@@ -236,6 +236,20 @@ CHECKS = {
         "level_note": "A failing Write may leave any prefix of its bytes (short write). Read errors are never violations. DisableCompactionBackoff is set so that retries are immediate.",
         "assumptions": ["values identify their writer", "a failing write may be partially applied to the file (short write)"],
     },
+    "C09": {
+        "test": "TestC09", "level": "exploration", "engine": "fault",
+        "technique": "fault injection over generated workloads with a watchdog: bounded responsiveness after the injected failures stop, confirmed by a stable-blocked-state test on two goroutine dumps (rapid)",
+        "quick": {"shards": 16, "n": 80, "timeout": 1200},
+        "thorough": {"shards": 16, "n": 2500, "timeout": 3400},
+        "floor": {"quick": 300, "thorough": 8000},
+        "replay_runs": 2,
+        "replay_timeout": 600,
+        "rule": "the C08 workloads and fault plans (journal/table/manifest create, write, sync, close, remove, rename, SetMeta failures on the paths that hold the write lock or the compaction-commit lock; transactions, oversized batches, CompactRange, reopen/Close at any point) run in strict mode: every Put/Write/Get/OpenTransaction/Commit/Discard/CompactRange/Open/Close is issued under a watchdog; 3 s after issue the watchdog stops all injected failures, and if the call has still not returned 12 s later (the code's own retry sleeps are 3x1 s) two goroutine dumps 1.5 s apart are compared: if every goroutine inside goleveldb is parked on the same operation in both (none runnable, sleeping or in a syscall) the DB is in a stable blocked state = violation; otherwise the case is counted inconclusive. "
+                "Non-trivial: a fault fired on a lock-holding path (journal, manifest, table create/write/sync) and further calls were issued afterwards.",
+        "level_text": "Exploration; liveness is decided as bounded responsiveness plus a stable-blocked-state test, so every report is a genuine deadlock; silence is evidence only up to the bound.",
+        "level_note": "Single client plus the DB's background goroutines in this engine; concurrent writers and Close racing with calls are exercised by C10 (writers) and C18 (Close vs. reads). DisableCompactionBackoff is set.",
+        "assumptions": ["a blocked state that is identical in two dumps 1.5 s apart and contains no runnable/sleeping goroutine will not resolve by itself"],
+    },
 }
 
 # Properties not claimed (reason); filled automatically with "not built yet" when absent.
